@@ -86,6 +86,45 @@ fn case(kinds: &[u8], cut: usize, chunk: usize) -> Option<String> {
             s_rec.applied.lock().unwrap().len()
         ));
     }
+    // Raft ships snapshots to followers from get_current_snapshot(), not from the value
+    // build_snapshot returned: after a *second* build further on, the stored snapshot must be
+    // that second one, state and label alike
+    for cut2 in (cut + 1)..=entries.len() {
+        let s2_rec = RecSm::new();
+        let mut sender2 = MemStateMachine::new(s2_rec.clone() as StateMachine);
+        if apply_chunks(&mut sender2, &entries[..cut], chunk).is_err() || tokio::block_on(sender2.build_snapshot()).is_err() {
+            return Some("second-build case: set-up failed".into());
+        }
+        if let Err(e) = apply_chunks(&mut sender2, &entries[cut..cut2], chunk) {
+            return Some(format!("second-build case: apply failed: {}", e));
+        }
+        let built = match tokio::block_on(sender2.build_snapshot()) {
+            Ok(s) => s,
+            Err(e) => return Some(format!("second build_snapshot failed: {}", e)),
+        };
+        let stored = match tokio::block_on(sender2.get_current_snapshot()) {
+            Ok(Some(s)) => s,
+            Ok(None) => return Some("get_current_snapshot returned None after two builds".into()),
+            Err(e) => return Some(format!("get_current_snapshot failed: {}", e)),
+        };
+        if stored.meta != built.meta {
+            return Some(format!("after a second build at entry {} the stored snapshot is labelled {:?} but the build returned {:?}", cut2, stored.meta.last_log_id.map(|l| l.index), built.meta.last_log_id.map(|l| l.index)));
+        }
+        let r2_rec = RecSm::new();
+        let mut receiver2 = MemStateMachine::new(r2_rec.clone() as StateMachine);
+        if let Err(e) = tokio::block_on(receiver2.install_snapshot(&stored.meta, stored.snapshot)) {
+            return Some(format!("install of the stored snapshot failed: {}", e));
+        }
+        if *r2_rec.applied.lock().unwrap() != *s2_rec.applied.lock().unwrap() {
+            return Some(format!(
+                "snapshots built at entries {} and {}: a receiver fed from get_current_snapshot() holds {} commands but the sender holds {} (the stored snapshot carries a new label over old state)",
+                cut,
+                cut2,
+                r2_rec.applied.lock().unwrap().len(),
+                s2_rec.applied.lock().unwrap().len()
+            ));
+        }
+    }
     // same suffix on both
     if let Err(e) = apply_chunks(&mut sender, &entries[cut..], chunk) {
         return Some(format!("sender suffix failed: {}", e));
@@ -268,7 +307,7 @@ pub fn check_c20b(tier: &str) -> i32 {
         samples,
         bad.is_none(),
         None,
-        format!("every entry sequence of length 0..{} over {{Normal, Blank, Membership}} x every snapshot point x chunkings {{1,2,7}} through the real MemStateMachine adapter (apply / build_snapshot / install_snapshot / applied_state) wrapping a recording state machine; plus, for sequences up to {}, every interleaving (at the lock acquisitions) of build_snapshot with an apply batch of 1..2 entries at every cut: {} schedules", maxlen, if thorough { 5 } else { 4 }, race_schedules),
+        format!("every entry sequence of length 0..{} over {{Normal, Blank, Membership}} x every snapshot point x chunkings {{1,2,7}} through the real MemStateMachine adapter (apply / build_snapshot / install_snapshot / applied_state / get_current_snapshot after a second build at every later cut) wrapping a recording state machine; plus, for sequences up to {}, every interleaving (at the lock acquisitions) of build_snapshot with an apply batch of 1..2 entries at every cut: {} schedules", maxlen, if thorough { 5 } else { 4 }, race_schedules),
         vec!["openraft/futures/bincode stand-ins; a recording state machine stands for the application metadata"],
         (bad.is_some() && known_line.is_none()) as u64,
         wall,
